@@ -265,7 +265,7 @@ def check_case(ctx, case, rng):
                 ctx.event("rejected_by_both")
             continue
         T = cs.T
-        for st in sorted({f["t"].get("t") or f["t"].get("base") for f in top["fields"] if f.get("bits")}):
+        for st in sorted({f["t"].get("t") or f["t"].get("base") or f["t"]["k"] for f in top["fields"] if f.get("bits")}):
             ctx.cell(f"unit:{st}:{cfgd['endian']}:{'compiled' if T.__compiled__ else 'interpreted'}")
         if cfgd["align"]:
             ctx.cell("aligned")
